@@ -63,7 +63,7 @@ prop(
     bounds="quick: oneshot k = 4 operations with 2 wakers; notification k = 4, <= 2 sender clones, 1 waker; mpsc k = 3, <= 2 sender "
            "clones, 1 waker, element type (); mpsc FIFO: one 7-operation sequence with 3 symbolic u8 values; last-sender drop after "
            "any 1-operation prefix. thorough: oneshot k = 5 (2 wakers) and k = 6 (1 waker); notification k = 4 (2 wakers) and k = 5 "
-           "(3 sender slots); mpsc k = 4 (1 and 2 wakers) and k = 5 (3 sender slots); last-sender drop after any 2- and 3-operation prefix. "
+           "(3 sender slots); mpsc k = 3 (2 wakers), k = 4 (1 waker) and k = 5 (3 sender slots); last-sender drop after any 2-operation prefix. "
            "1 receiver everywhere.",
     outside="schedules longer than the stated k; more than 3 sender clones; the soundness of critical_section itself and true "
             "parallel execution inside a critical section (trusted base: acquire/release are stubbed by no-ops); the two critical "
@@ -117,8 +117,8 @@ prop(
         "and all obligations are now asserted without exception."),
     bounds="1 condition, 1 waiter (one wait call), 3 status kinds (mask bits 0, 8, 12) and all 8 masks over them; trigger value: k = 3 "
            "(quick) / 4 and 5 (thorough) worker operations from the default condition; wake-ups: 4 waiter steps + symbolic initial mask + 1 "
-           "symbolic worker operation in one of the four slots (quick, all four placements) / 2 worker operations in two slots "
-           "(thorough: placements 1001, 0101, 1100, 0011); unwind 14 (13-iteration mask loop of DcpsStatusCondition::default()).",
+           "symbolic worker operation in one of the slots (quick: between G and R, between R and the first poll, between the polls; "
+           "thorough: also before G) / 2 worker operations in two slots (thorough: placements 1001, 0101, 1100, 0011); unwind 14 (13-iteration mask loop of DcpsStatusCondition::default()).",
     outside="a free symbolic schedule of worker and waiter steps (measured: 3 free steps, and one worker slot in each of the four gaps, "
             "both exceed 11 GB / 600 s: once the length of registered_notifications is symbolic CBMC unrolls the drain loop of "
             "add_communication_state 13 times, the unwind bound forced by the 13-status loop of Default) - hence the slot-structured "
